@@ -3,6 +3,7 @@ package rules
 import (
 	"fmt"
 	"go/token"
+	"go/types"
 	"sort"
 	"strings"
 
@@ -64,7 +65,39 @@ func (r c20DelResult) op() (token.Token, string) {
 
 // c20Trim analyses deletions from one target map inside a function (and, following the map, inside helpers).
 type c20Trim struct {
-	bound ssa.Value // the epoch parameter of the trim function (origin level)
+	bound      ssa.Value                             // the epoch parameter of the trim function (origin level)
+	isBound    func(w *c19Walker, v ssa.Value) bool  // optional: recognises the bound (seen through the walker's bindings)
+	attributed map[ssa.Instruction]bool              // optional: deletion sites recognised as deleting from the target
+}
+
+func (t *c20Trim) boundIs(w *c19Walker, v ssa.Value) bool {
+	if t.isBound != nil {
+		return t.isBound(w, v)
+	}
+	return w.only(v, t.bound)
+}
+
+func (t *c20Trim) note(in ssa.Instruction) {
+	if t.attributed != nil {
+		t.attributed[in] = true
+	}
+}
+
+// c20ConstOf: v resolves (through the walker's bindings) to one integer constant.
+func c20ConstOf(w *c19Walker, v ssa.Value) (int64, bool) {
+	os := w.origins(v)
+	if len(os) == 0 {
+		return 0, false
+	}
+	var k int64
+	for i, o := range os {
+		n, ok := an.ConstInt(o)
+		if !ok || (i > 0 && n != k) {
+			return 0, false
+		}
+		k = n
+	}
+	return k, true
 }
 
 func c20Cmp(ord int, op token.Token) bool {
@@ -105,10 +138,29 @@ func (t *c20Trim) walker(ord int, isKey func(w *c19Walker, v ssa.Value) bool, bi
 			return false, false
 		}
 		switch {
-		case isKey(w, bin.X) && w.only(bin.Y, t.bound):
+		case isKey(w, bin.X) && t.boundIs(w, bin.Y):
 			return c20Cmp(ord, bin.Op), true
-		case isKey(w, bin.Y) && w.only(bin.X, t.bound):
+		case isKey(w, bin.Y) && t.boundIs(w, bin.X):
 			return c20Cmp(ord, c20Flip(bin.Op)), true
+		}
+		// a mode flag handed down as a constant (`dir == trimOlder`)
+		if a, ok := c20ConstOf(w, bin.X); ok {
+			if b, ok := c20ConstOf(w, bin.Y); ok {
+				switch bin.Op {
+				case token.LSS:
+					return a < b, true
+				case token.LEQ:
+					return a <= b, true
+				case token.GTR:
+					return a > b, true
+				case token.GEQ:
+					return a >= b, true
+				case token.EQL:
+					return a == b, true
+				case token.NEQ:
+					return a != b, true
+				}
+			}
 		}
 		return false, false
 	}
@@ -167,8 +219,10 @@ func (t *c20Trim) analyse(fn *ssa.Function, isTarget func(v ssa.Value) bool, bin
 		if b, isB := cc.Value.(*ssa.Builtin); isB {
 			switch {
 			case b.Name() == "delete" && len(cc.Args) == 2 && isTarget(cc.Args[0]):
+				t.note(call)
 				combine(t.deleteInScan(fn, call, isTarget, bind))
 			case b.Name() == "clear" && len(cc.Args) == 1 && isTarget(cc.Args[0]):
+				t.note(call)
 				combine(c20DelResult{found: true, del: [3]int8{1, 1, 1}, pos: call.Pos()})
 			}
 			continue
@@ -191,6 +245,7 @@ func (t *c20Trim) analyse(fn *ssa.Function, isTarget func(v ssa.Value) bool, bin
 		}
 		switch {
 		case an.FuncName(callee) == "maps.DeleteFunc" && ti == 0 && len(cc.Args) == 2:
+			t.note(call)
 			combine(t.deleteFunc(call, cc.Args[1], bind))
 		case callee.Pkg == fn.Pkg && len(callee.Blocks) > 0 && len(callee.Params) == len(cc.Args):
 			if depth >= 2 {
@@ -368,13 +423,15 @@ func (t *c20Trim) deleteFunc(call *ssa.Call, predv ssa.Value, bind map[*ssa.Para
 	return res
 }
 
-// c20TrimCallee is one per-store trim function reached from Trim / InvalidateCache.
+// c20TrimCallee is one in-package function reached from Trim / InvalidateCache (directly, or through at most two
+// intermediate in-package functions that hand the epoch on).
 type c20TrimCallee struct {
 	g       *ssa.Function
-	bound   ssa.Value       // the epoch argument, in the frame of the API function
-	site    ssa.Instruction // the call
-	certain bool            // once the call site (or the loop over the trim functions) is reached, g is certainly called
-	always  bool            // ... and that is the case on every path through the API function
+	bound   ssa.Value                    // the epoch argument of a direct call, in the frame of the API function (nil below)
+	bind    map[*ssa.Parameter]ssa.Value // parameters of g (and of the intermediate functions) -> arguments
+	site    ssa.Instruction              // the call
+	certain bool                         // once the call site (or the loop over the trim functions) is reached, g is certainly called
+	always  bool                         // ... and that is the case on every path through the API function
 	whyNot  string
 }
 
@@ -398,37 +455,92 @@ func c20BoundMethod(v ssa.Value) (*ssa.Function, ssa.Value) {
 	return nil, nil
 }
 
-// c20TrimCallees lists the per-store trim functions api calls on its own receiver with one epoch argument:
-// direct method calls, and calls through the elements of a literal slice of method values that a closed loop
-// ranges over.
+// c20TrimCallees lists the in-package functions api calls on its own receiver: direct method calls, calls through
+// the elements of a literal slice of method values that a closed loop ranges over, and (two levels deep) the
+// in-package functions those call. Which of them trims which map is decided by the caller.
 func c20TrimCallees(api *ssa.Function) (out []c20TrimCallee, unsure string) {
-	recv := ssa.Value(api.Params[0])
+	out, unsure = c20TrimCalleesIn(api, api, nil, 0, true, true, "")
+	sort.SliceStable(out, func(i, j int) bool { return out[i].g.Name() < out[j].g.Name() })
+	return out, unsure
+}
+
+func c20TrimCalleesIn(api, fn *ssa.Function, bind map[*ssa.Parameter]ssa.Value, depth int, pCertain, pAlways bool, pWhy string) (out []c20TrimCallee, unsure string) {
+	var recv ssa.Value
+	if depth == 0 {
+		recv = api.Params[0]
+	}
 	returnsAfter := func(b *ssa.BasicBlock) bool {
-		for _, r := range an.Returns(api) {
+		for _, r := range an.Returns(fn) {
 			if !b.Dominates(r.Block()) {
 				return false
 			}
 		}
 		return true
 	}
-	for _, in := range an.Instrs(api, false) {
+	extend := func(f *ssa.Function, args []ssa.Value) map[*ssa.Parameter]ssa.Value {
+		nb := map[*ssa.Parameter]ssa.Value{}
+		for k, v := range bind {
+			nb[k] = v
+		}
+		if len(f.Params) == len(args) {
+			for i, p := range f.Params {
+				nb[p] = args[i]
+			}
+		}
+		return nb
+	}
+	emit := func(tc c20TrimCallee) {
+		if !pCertain {
+			tc.certain = false
+		}
+		if !pAlways {
+			tc.always = false
+		}
+		if (!pCertain || !pAlways) && pWhy != "" {
+			tc.whyNot = pWhy
+		}
+		out = append(out, tc)
+		if depth < 2 {
+			sub, u := c20TrimCalleesIn(api, tc.g, tc.bind, depth+1, tc.certain, tc.always, tc.whyNot)
+			out = append(out, sub...)
+			if u != "" && unsure == "" {
+				unsure = u
+			}
+		}
+	}
+	for _, in := range an.Instrs(fn, false) {
 		ci, ok := in.(ssa.CallInstruction)
 		if !ok || ci.Common().IsInvoke() {
 			continue
 		}
 		cc := ci.Common()
 		if f := an.Orig(cc.StaticCallee()); f != nil {
-			if f.Pkg == api.Pkg && len(cc.Args) == 2 && len(f.Blocks) > 0 && (cc.Args[0] == recv || c19Only(cc.Args[0], recv)) {
-				_, isCall := ci.(*ssa.Call)
-				tc := c20TrimCallee{g: f, bound: cc.Args[1], site: ci, certain: isCall, always: isCall && returnsAfter(ci.Block())}
-				if !tc.always {
-					tc.whyNot = f.Name() + " is not called on every path through " + api.Name()
-				}
-				out = append(out, tc)
+			if f.Pkg != api.Pkg || len(f.Blocks) == 0 || len(f.Params) != len(cc.Args) {
+				continue
 			}
+			if depth == 0 {
+				onRecv := false
+				for _, a := range cc.Args {
+					if a == recv || c19Only(a, recv) {
+						onRecv = true
+					}
+				}
+				if !onRecv {
+					continue
+				}
+			}
+			_, isCall := ci.(*ssa.Call)
+			tc := c20TrimCallee{g: f, bind: extend(f, cc.Args), site: ci, certain: isCall, always: isCall && returnsAfter(ci.Block())}
+			if depth == 0 && len(cc.Args) == 2 {
+				tc.bound = cc.Args[1]
+			}
+			if !tc.always {
+				tc.whyNot = f.Name() + " is not called on every path through " + fn.Name()
+			}
+			emit(tc)
 			continue
 		}
-		if _, isB := cc.Value.(*ssa.Builtin); isB || len(cc.Args) != 1 {
+		if _, isB := cc.Value.(*ssa.Builtin); isB || len(cc.Args) != 1 || depth > 0 {
 			continue
 		}
 		// a dynamic call f(epoch): f the element of a scan over a literal list of method values of the receiver
@@ -473,11 +585,69 @@ func c20TrimCallees(api *ssa.Function) (out []c20TrimCallee, unsure string) {
 			why = "the loop over the trim functions is not executed on every path through " + api.Name()
 		}
 		for _, f := range fns {
-			out = append(out, c20TrimCallee{g: f, bound: cc.Args[0], site: ci, certain: certain, always: always, whyNot: why})
+			nb := map[*ssa.Parameter]ssa.Value{}
+			if len(f.Params) == 2 {
+				nb[f.Params[0]] = recv
+				nb[f.Params[1]] = cc.Args[0]
+			}
+			emit(c20TrimCallee{g: f, bound: cc.Args[0], bind: nb, site: ci, certain: certain, always: always, whyNot: why})
 		}
 	}
-	sort.SliceStable(out, func(i, j int) bool { return out[i].g.Name() < out[j].g.Name() })
 	return out, unsure
+}
+
+// c20Unfollowed reports why the absence of a deletion in the functions reached from the trim callees is not
+// evidence: a deletion from a map keyed by epochs that was not attributed to one of the cache's maps (made
+// through a view struct, a parameter that was not followed, ...), or a call of a function value that is not
+// resolved. "" when everything reached is followed.
+func c20Unfollowed(callees []c20TrimCallee, attributed map[ssa.Instruction]bool, keyT types.Type) string {
+	seen := map[*ssa.Function]bool{}
+	why := ""
+	var visit func(f *ssa.Function, d int)
+	visit = func(f *ssa.Function, d int) {
+		f = an.Orig(f)
+		if f == nil || seen[f] || len(f.Blocks) == 0 || d > 5 {
+			return
+		}
+		seen[f] = true
+		for _, in := range an.Instrs(f, true) {
+			ci, ok := in.(ssa.CallInstruction)
+			if !ok {
+				continue
+			}
+			cc := ci.Common()
+			if cc.IsInvoke() {
+				continue
+			}
+			if b, isB := cc.Value.(*ssa.Builtin); isB {
+				if (b.Name() == "delete" || b.Name() == "clear") && len(cc.Args) > 0 && !attributed[in] {
+					if m, isMap := cc.Args[0].Type().Underlying().(*types.Map); isMap && types.Identical(m.Key(), keyT) && why == "" {
+						why = "a deletion from a map keyed by epochs in " + f.Name() + " cannot be attributed to a map of the cache (the map is reached in a form that is not followed)"
+					}
+				}
+				continue
+			}
+			callee := an.Orig(cc.StaticCallee())
+			if callee == nil {
+				if _, isLit := cc.Value.(*ssa.MakeClosure); !isLit && why == "" {
+					why = "a function value is called in " + f.Name() + ", which is not followed"
+				}
+				continue
+			}
+			if an.FuncName(callee) == "maps.DeleteFunc" && !attributed[in] && len(cc.Args) > 0 && why == "" {
+				if m, isMap := cc.Args[0].Type().Underlying().(*types.Map); isMap && types.Identical(m.Key(), keyT) {
+					why = "a maps.DeleteFunc on a map keyed by epochs in " + f.Name() + " cannot be attributed to a map of the cache"
+				}
+			}
+			if callee.Pkg == f.Pkg {
+				visit(callee, d+1)
+			}
+		}
+	}
+	for _, tc := range callees {
+		visit(tc.g, 0)
+	}
+	return why
 }
 
 var _ = fmt.Sprintf
